@@ -106,7 +106,7 @@ def run_A(job, ob):
                 cnt[0] += 1
                 return vec(cnt[0])
             solver._update_values = fake_update
-            solver._extract_policy = lambda: jnp.zeros((S, 1), dtype=jnp.int32)
+            solver._extract_policy = lambda *a, **k: jnp.zeros((S, 1), dtype=jnp.int32)
             convs = []
             orig = solver._convergence_test_fn
 
@@ -348,7 +348,7 @@ def replay(data):
             cnt[0] += 1
             return jnp.asarray(outs[cnt[0]])
         s._update_values = fake
-        s._extract_policy = lambda: jnp.zeros((2, 1), dtype=jnp.int32)
+        s._extract_policy = lambda *a, **k: jnp.zeros((2, 1), dtype=jnp.int32)
         try:
             st = s.solve(N)
         except Exception as ex:
